@@ -159,7 +159,7 @@ HOSTILE_STRINGS = ["sNaN", "-sNaN", "NaN", "1/0", "1e999", "nan", "inf", "-inf",
 # strings aimed at the parser behind one scalar type (used three times as often as the general list when the type of
 # the case contains that scalar)
 HOSTILE_BY_TAG = {
-    "pattern": ["a{4294967296}", "x{,99999999999999999999}", "(?<=a+)b", "\\8", "(?P<n>a)(?P<n>b)", "[z-a]", "(?P=x)", "\\", "(", "a**",
+    "pattern": ["(" * 3000 + ")" * 3000, "(?:a|" * 2000 + "b" + ")" * 2000, "a{4294967296}", "x{,99999999999999999999}", "(?<=a+)b", "\\8", "(?P<n>a)(?P<n>b)", "[z-a]", "(?P=x)", "\\", "(", "a**",
                 "(?z)", "(?i", "\\N{nope}", "[[:alpha:]]", "(?P<1>a)", "(?a)(?u)x", "(?L)x", "(?au)x", "(?a:(?u:x))"],
     "date": ["2020-02-30", "2020-13-01", "0000-01-01", "9999-12-31", "10000-01-01", "2020-1-1", "20200101", "2020-W01-1", "２０２０-01-01",
              "2020-01-01T00:00:00", " 2020-01-01", "2020-01-01\n", "-001-01-01"],
